@@ -16,7 +16,15 @@ func (w *vSinkW) Write(p []byte) (int, error) {
 	return len(p), nil
 }
 
+// vTwoSections: two sections (thorough tier: three, with longer data).
 func vTwoSections() []vSection {
+	if vTier() == 1 {
+		return []vSection{
+			{c: vCidTW("c1"), data: vBytes("d1", vChoose("n1", 5))},
+			{c: vCidTW("c2"), data: vBytes("d2", vChoose("n2", 3))},
+			{c: vCidTW("c3"), data: vBytes("d3", vChoose("n3", 2))},
+		}
+	}
 	return []vSection{
 		{c: vCidT("c1"), data: vBytes("d1", vChoose("n1", 3))},
 		{c: vCidT("c2"), data: vBytes("d2", vChoose("n2", 2))},
